@@ -72,15 +72,15 @@ def strat(tier):
         'seed': st.one_of(st.integers(0, 1000), st.integers(0, 2 ** 32 - 1)),
         'req': st.lists(st.integers(0, 10 ** 6), min_size=1, max_size=6),
         'supplied': st.lists(st.integers(0, 10 ** 6), min_size=0, max_size=3),
-        'sup_prob': st.integers(0, 9),
-        'via_node': st.booleans(),
+        'sup_prob': st.integers(0, 7),
+        'via_node': st.sampled_from([False, False, True]),
         # how the supplied values reach the run: generate(with_values=...) or the batch override of BatchHandler.submit
         # (the path SMC / BO use for proposed parameters)
-        'supply_via': st.sampled_from(['with_values', 'submit-override']),
+        'supply_via': st.sampled_from(['with_values', 'submit-override', 'submit-override']),
         # number of batches loaded and submitted before the first one is executed (the native client evaluates lazily)
         'inflight': st.sampled_from([1, 1, 1, 2, 3]),
         # submit-override only: one ordinary batch (nothing supplied) goes through the SAME handler first
-        'earlier_batch': st.sampled_from([False, True]),
+        'earlier_batch': st.sampled_from([False, True, True]),
         'empty_request': st.sampled_from([False, False, False, True]),
     })
 
@@ -252,8 +252,14 @@ def run_case(case):
     # supplied values
     supplied = {}
     if case['sup_prob'] < 4:
-        for s in case['supplied']:
-            nm = names[s % len(names)]
+        kind_of = {nd['name']: nd['kind'] for nd in nodes}
+        # nodes with at least one parent that has an operation of its own: giving such a node makes its private ancestors unnecessary
+        deep = [nd['name'] for nd in nodes if nd['kind'] != 'const' and
+                any(kind_of.get(p[1]) not in (None, 'const') for p in nd['pos'] if p[0] == 'node') or
+                any(kind_of.get(p) not in (None, 'const') for p in nd['named'].values())]
+        for j, s in enumerate(case['supplied']):
+            cands = deep if (j == 0 and deep and case.get('supply_via') == 'submit-override') else names
+            nm = cands[s % len(cands)]
             supplied[nm] = ('SUP', nm)
     via_node = case['via_node'] and len(case['req']) == 1
     ref_seed = 'global' if via_node else seed
